@@ -55,7 +55,7 @@ def enumerate_cases(tier):
 
 
 @st.composite
-def _case(draw, focus):
+def _case(draw, focus, tier="quick"):
     q = draw(st.sampled_from([0.01, 0.01, None]))
     n = draw(st.integers(1, 3))
     names = ["Alpha", "Beta plate", "Gamma_3"]
@@ -91,11 +91,11 @@ def _case(draw, focus):
     a = op_direct(vs, kinds=("aspirate",), max_n=4)
     anyop = st.one_of(t, t, d, dc, a, refused)
     fop = {"transfer": t, "distribute": d, "dispense": dc, "mixed": anyop}[focus]
-    return {"labs": labs, "device": draw(st.sampled_from(["evo", "fluent"])), "q": q, "M": draw(st.sampled_from([950, 50, 7, 33.3])), "ops": draw(st.lists(st.one_of(fop, anyop), min_size=1, max_size=12))}
+    return {"labs": labs, "device": draw(st.sampled_from(["evo", "fluent"])), "q": q, "M": draw(st.sampled_from([950, 50, 7, 33.3])), "ops": draw(st.lists(st.one_of(fop, anyop), min_size=1, max_size=12 if tier == "quick" else 20))}
 
 
 def strategy(tier, stratum):
-    return _case(stratum)
+    return _case(stratum, tier)
 
 
 def _naming(obs, spec, lw):
